@@ -528,6 +528,7 @@ func (s *muxerSegmenter) fmp4AdjustPartDuration(sampleDuration time.Duration) {
 			s.partMinDuration,
 			s.fmp4SampleDurations,
 		)
+		verifPoint("seg.adjusted", int64(s.fmp4AdjustedPartDuration))
 	}
 }
 
